@@ -978,6 +978,8 @@ def run(chk):
         for name, why in broken.items():
             chk.report("obligation:" + name, "theorem %s no longer checks: %s" % (name, why),
                        {"theorem": name, "reason": why, "log": (chk.oblig or {}).get("log_tail", "")[-1500:]}, found_input=False)
+    from props import C20 as _c20
+    _c20.run_eq_leg(chk, lambda name: "Tensor" in name and "Apply" not in name)    # the C wrappers of the Tensor accessors and in-place operations (valid and invalid tensors)
     chk.trusted += [
         "modelled, not verified: Tensor / Device front / Naive in-place kernels / Parameter tensors are hand-modelled in Lean (Model/Cow.lean) and tied to the code by the correspondence run of this check on devices::Naive and devices::Eigen",
         "the harness devices override the private virtual new_handle (same malloc/free body plus a live-buffer counter)",
